@@ -688,6 +688,7 @@ class TOCSchemas:
             if not len(pkg_used):
                 # package not used anymore in container -> clean up
                 self._pkgs._unregister(pkg)
+                del self._used[pkg]
 
         # remove schemas group if it is empty (no schemas used in container)
         if not self._raw.require_group(M.METADOR_SCHEMAS_PATH).keys():
